@@ -291,6 +291,7 @@ def check(chk):
         chk.ob("FLAG-3", "Timer.start cancels a pending timed pause", bool(rp) and w is None, f.where(c), construct=f.ident,
                text="start removes pause")
     _tick_arithmetic(chk, tm)
+    _timed_pause(chk, repo)
     # whoever (re)creates the periodic tick leaves it armed: no removal of the system timer after the creation on any path
     for name in ("start", "jump", "set_tick_interval", "change_tick_interval", "restart"):
         f2 = tm.methods.get(name)
@@ -534,6 +535,39 @@ def _is_grid_advance(stmt):
     return isinstance(v, ast.BinOp) and isinstance(v.op, ast.Add) and {src(v.left), src(v.right)} == {"self._last_call", "self._interval"}
 
 
+def _timed_pause(chk, repo):
+    """PAUSE-13: a timed pause lasts as long as asked: the pause length goes through _get_timer_value(in_ms=True), which scales to ms
+    *inside* its int() (0.5 s is 500 ms, not 0 = for ever), the resume delay is armed for exactly that length and only for a positive one,
+    after the timer was marked not running and its system timer removed."""
+    f = repo.func(TM, "Timer.pause")
+    g = repo.func(TM, "Timer._get_timer_value")
+    chk.analysed(f, g)
+    cfg = f.cfg()
+    st = [n for n in cfg.nodes if n.kind == "stmt" and isinstance(n.ast, ast.Assign) and src(n.ast.targets[0]) == "pause_ms" and isinstance(n.ast.value, ast.Call)]
+    ok = len(st) == 1 and call_attr(st[0].ast.value) == "_get_timer_value" and src(st[0].ast.value.args[0]) == "timer_value" and \
+        kwarg(st[0].ast.value, "in_ms") is not None and const_value(kwarg(st[0].ast.value, "in_ms")) is True and any(k.arg is None for k in st[0].ast.value.keywords)
+    chk.ob("PAUSE-13", "the pause length is the given value in milliseconds (placeholder arguments handed on)", ok, f.where(), construct=f.ident, text="pause_ms source")
+    arm = [(n, c) for n, c in cfg.calls_named("add") if src(c.func.value) == "self.delay"]
+    ok = len(arm) == 1
+    if ok:
+        n, c = arm[0]
+        kw = {k.arg: src(k.value) for k in c.keywords}
+        g_ = cfg.guards_at(n.id)
+        ok = kw.get("ms") == "pause_ms" and kw.get("callback") == "self.start" and kw.get("name") == "'pause'" and g_.get("pause_ms > 0") is True
+        rm = [x for x, _ in cfg.calls_named("_remove_system_timer")]
+        run = [x for x in cfg.nodes if x.kind == "stmt" and isinstance(x.ast, ast.Assign) and src(x.ast.targets[0]) == "self.running" and src(x.ast.value) == "False"]
+        ok = ok and bool(rm) and bool(run) and cfg.dominates(rm[0].id, n.id) and cfg.dominates(run[0].id, n.id)
+    chk.ob("PAUSE-13", "a positive pause length arms the resume (start) for exactly that long, after the timer stopped ticking", ok, f.where(), construct=f.ident,
+           text="pause resume armed")
+    rets = [x for x in walk_local(g.node) if isinstance(x, ast.Return) and x.value is not None and any(isinstance(y, ast.Call) and call_attr(y) == "evaluate" for y in ast.walk(x.value))]
+    ok = len(rets) == 1 and isinstance(rets[0].value, ast.Call) and isinstance(rets[0].value.func, ast.Name) and rets[0].value.func.id == "int"
+    if ok:
+        inner = rets[0].value.args[0]
+        ok = isinstance(inner, ast.BinOp) and isinstance(inner.op, ast.Mult) and any(
+            isinstance(o, ast.IfExp) and src(o.test) == "in_ms" and const_value(o.body) == 1000 and const_value(o.orelse) == 1 for o in (inner.left, inner.right))
+    chk.ob("PAUSE-13", "a placeholder value is scaled (x1000 for ms) before it is truncated to an int", ok, g.where(), construct=g.ident, text="timer value scaling")
+
+
 def _tick_arithmetic(chk, tm):
     """TICK-1: the count of a timer device moves by exactly one per tick in its direction, by the given amount on add / subtract
     (relative to the current count, never overwritten by the amount), and is set absolutely only by jump / load (clamped to max_value)."""
@@ -625,6 +659,8 @@ def battery():
         M("subtract() overwrites the count", TM, "        self.ticks -= ticks_subtracted", "        self.ticks = ticks_subtracted", "TICK-1"),
         M("tick direction inverted", TM, "        if self.direction == 'down':\n            self.ticks -= 1\n        else:\n            self.ticks += 1", "        if self.direction == 'down':\n            self.ticks += 1\n        else:\n            self.ticks -= 1", "TICK-1"),
         M("mode delay armed on the machine-wide manager (survives the mode)", "mpf/core/mode.py", "        self.delay.add(ms=ms_delay, callback=callback, mode=self)", "        self.machine.delay.add(ms=ms_delay, callback=callback, mode=self)", "DOM-26"),
+        M("pause length truncated to whole seconds before scaling", TM, "            return int(timer_value.evaluate(kwargs) * (1000 if in_ms else 1))", "            value = int(timer_value.evaluate(kwargs))\n            return value * 1000 if in_ms else value", ["PAUSE-13", "ROUND-0"]),
+        M("pause length in seconds handed to the ms delay", TM, "pause_ms = self._get_timer_value(timer_value, in_ms=True, **kwargs)", "pause_ms = self._get_timer_value(timer_value, **kwargs)", "PAUSE-13"),
     ]
 
 
